@@ -3,6 +3,7 @@ Each stub states the primitive's behaviour over spec functions, including its ex
 None of this is proved; every axiom used by a run is listed in that run's evidence.
 """
 from __future__ import annotations
+from .core import tid
 import base64
 import binascii
 import struct
@@ -194,7 +195,7 @@ def install(cfg):
             interp.raise_(TypeError, "Object is not JSON serializable")
         fn = S.JSONc if ensure_ascii else S.JSONu
         t = fn(v)
-        key = ("json", t.get_id())
+        key = ("json", tid(t))
         if key not in ctx.ghost:
             ctx.ghost[key] = True
             if ensure_ascii:
@@ -230,7 +231,7 @@ def install(cfg):
         if not ctx.branch(S.JSONOk(t)):
             interp.raise_(json.JSONDecodeError, "Expecting value", "", 0)
         r = S.JSONParse(t)
-        key = ("jsonparse", r.get_id())
+        key = ("jsonparse", tid(r))
         if key not in ctx.ghost:
             ctx.ghost[key] = True
             ctx.axiom(S.IsJSONValue(r), "json.loads yields a value of the JSON data model")
@@ -243,6 +244,9 @@ def install(cfg):
     def time_time(interp):
         r = interp.ctx.fresh("time", RealSort)
         interp.ctx.axiom(r >= 0, "time.time() >= 0")
+        prev = interp.ctx.ghost.get("time.time")
+        if prev is not None:
+            interp.ctx.axiom(r >= prev, "time.time() is non-decreasing within a call sequence")
         interp.ctx.ghost["time.time"] = r
         return SVal(mk_float(r))
 
@@ -307,7 +311,9 @@ def json_value_cond(ctx, v):
         except Exception:
             return S.IsJSONValue(v)
     if ht == "vdict":
-        arr = v.arg(0)
+        from .core import DId, DArr
+        dd = v.arg(0)
+        arr = dd.arg(0) if (z3.is_app(dd) and dd.decl().eq(DId)) else DArr(dd)
         conds = []
         while z3.is_app(arr) and arr.decl().kind() == z3.Z3_OP_STORE:
             val = arr.arg(2)
